@@ -14,6 +14,7 @@ import (
 	"sort"
 	"strings"
 	"sync"
+	"sync/atomic"
 	"testing"
 	"testing/synctest"
 	"time"
@@ -310,7 +311,7 @@ func TestVerifH4(t *testing.T) {
 		})
 	}
 	// real time: something else completes the transaction while a retransmission's socket write is in progress
-	for _, mode := range []string{"response", "close", "response", "close", "first-write-slow", "first-write-slow"} {
+	for _, mode := range []string{"response", "close", "response", "close", "first-write-slow", "first-write-slow", "first-write-fails", "first-write-fails", "same-id-twice"} {
 		h4WriteRace(vt, mode)
 	}
 }
@@ -326,6 +327,7 @@ func h4WriteRace(vt *vhT, mode string) {
 	cpc, _ := n.listenUDP(net.ParseIP("10.0.0.2").To4(), 4000, true)
 	var c *Client
 	var mu sync.Mutex
+	var inboundDone atomic.Bool
 	sends := 0
 	n.writeHook = func(from, to net.Addr, b []byte) error {
 		if from.String() != cpc.addr.String() || !stun.IsMessage(b) {
@@ -335,6 +337,25 @@ func h4WriteRace(vt *vhT, mode string) {
 		nth := sends
 		sends++
 		mu.Unlock()
+		if mode == "same-id-twice" {
+			return nil // every transmission is lost; nothing answers
+		}
+		if mode == "first-write-fails" {
+			// the request got out and is answered (the read loop's goroutine delivers the answer), yet the transport reports an
+			// error for that very write: PerformTransaction returns the error - and the read loop must not be left waiting for it
+			if nth == 0 {
+				m := &stun.Message{Raw: append([]byte{}, b...)}
+				if m.Decode() == nil {
+					resp, _ := stun.Build(stun.NewTransactionIDSetter(m.TransactionID), stun.BindingSuccess)
+					go func() { _, _ = c.HandleInbound(resp.Raw, srv.addr); inboundDone.Store(true) }()
+				}
+				time.Sleep(80 * time.Millisecond)
+
+				return errors.New("simnet: injected write error")
+			}
+
+			return nil
+		}
 		if mode == "first-write-slow" {
 			// the FIRST transmission takes a while to leave the socket and its answer is handled (by the read loop's goroutine)
 			// before WriteTo returns; every later transmission is lost: the transaction must complete with that answer
@@ -374,6 +395,31 @@ func h4WriteRace(vt *vhT, mode string) {
 		panic(err)
 	}
 	msg, _ := stun.Build(stun.NewTransactionIDSetter(tidOf(7)), stun.BindingRequest)
+	if mode == "same-id-twice" {
+		// two overlapping transactions with one id (a caller that reuses its message): whatever happens to the second, the first
+		// still ends - by its timetable (7 transmissions, RTO 20 ms: about 0.8 s) - and the table is empty afterwards
+		first := make(chan error, 1)
+		go func() { _, err := c.PerformTransaction(msg, srv.addr, false); first <- err }()
+		time.Sleep(5 * time.Millisecond)
+		second := make(chan error, 1)
+		go func() { _, err := c.PerformTransaction(msg, srv.addr, false); second <- err }()
+		for name, ch := range map[string]chan error{"first": first, "second": second} {
+			select {
+			case <-ch:
+			case <-time.After(4 * time.Second):
+				vt.Alarm("txn-completion-race", "mode=%s: the %s of two overlapping transactions with the same id never returned", mode, name)
+			}
+		}
+		if sz := c.trMap.Size(); sz != 0 {
+			vt.Alarm("txn-completion-race", "mode=%s: %d entries left in the transaction table", mode, sz)
+		}
+		vt.Obs("ok")
+		c.Close()
+		_ = cpc.Close()
+		_ = srv.Close()
+
+		return
+	}
 	done := make(chan string, 1)
 	go func() {
 		_, err := c.PerformTransaction(msg, srv.addr, false)
@@ -398,6 +444,9 @@ func h4WriteRace(vt *vhT, mode string) {
 		}
 	}
 	time.Sleep(250 * time.Millisecond)
+	if mode == "first-write-fails" && !inboundDone.Load() {
+		vt.Alarm("txn-completion-race", "mode=%s result=%s: HandleInbound, delivering the answer to a request whose write then failed, has not returned: the read loop is stuck", mode, res)
+	}
 	buf := make([]byte, 1<<20)
 	stacks := string(buf[:runtime.Stack(buf, true)])
 	if strings.Contains(stacks, "Transaction).WriteResult") {
